@@ -59,6 +59,7 @@ func runC16(c *core.Ctx) {
 	c.Rule("R16.3", "metadataSize == sum of the encoded field sizes of the metadata record == bytes emitted by the metadata writer == bytes consumed by the metadata reader; writer and reader agree on every field offset", 2)
 	c.Rule("R16.4", "the number of chunks is computed by the same formula over the same operands in the chunk writer and in the chunk iterator", 1)
 
+	c.Share(map[string]string{"R4.7": "R16.6"}, runC04) // backend key length is part of the slab budget: the suffix is the decimal index, nothing more
 	c.Share(map[string]string{"R7.9": "R16.5"}, runC07) // the declared length of a chunk write lives in a pooled request header: released twice, it is shared with another connection, which overwrites it between "declare" and "write"
 	cs := findChunkSizeFunc(c)
 	if cs == nil {
